@@ -25,7 +25,7 @@ func init() {
 		c.Run.Floor("K-CALLBACK/args", 2)
 		// the call reaches MFunc at all only if no function of the mock leaves one of its locks held (a lock
 		// leaked by an accessor blocks the next call of the method before it delegates)
-		c.RunSkeletons(SkelOpts{Rules: []string{"K-CALLBACK", "K-FLOW", "K-LOCK/defer", "K-LOCK/held-at-exit", "K-LOCK/unbalanced", "K-NILFUNC/guard", "G-DATA/params", "G-DATA/methods"}})
+		c.RunSkeletons(SkelOpts{Rules: []string{"K-CALLBACK", "K-FLOW", "K-LOCK/defer", "K-LOCK/held-at-exit", "K-LOCK/unbalanced", "K-NILFUNC/guard", "G-DATA/params", "G-DATA/methods", "G-DATA/name-final"}})
 		// signature and call site are rendered by separate helpers: they agree only if rendering is a pure function of the data
 		gen.CheckPure(c.Run, c.Prog, "G-PURE/render-helpers")
 	})
@@ -41,7 +41,7 @@ func init() {
 		skeletonExplain(c, "C05 (race freedom of the record lists): Eraser-style lockset discipline on the skeletons — every read or write of a record slice happens with a lock of the receiver certainly held (must-lockset over go/cfg), writes under a write lock, one common lock protects all accesses of a slice across all functions of the mock, distinct methods use distinct slices and locks, lock fields are sync.RWMutex/Mutex values of import path \"sync\" (resolved by go/types, so a user package named sync cannot stand in), receivers are pointers, no reference to the storage escapes. The atomic-list behaviour (count, no tearing, per-goroutine order, prefix-monotone snapshots) follows from these facts plus C04's single append inside one write section and the Go memory model; that derivation is an argument, not machine-checked.")
 		c.Run.Floor("K-LOCK/access-locked", 3)
 		c.Run.Floor("K-LOCK/write-exclusive", 1)
-		c.RunSkeletons(SkelOpts{Rules: []string{"K-LOCK/access-locked", "K-LOCK/write-exclusive", "K-LOCK/common-lock", "K-LOCK/distinct-locks", "K-LOCK/lock-type", "K-LOCK/receiver", "K-LOCK/unbalanced", "K-RECORD/escape", "K-RECORD/distinct-storage", "K-RECORD/writers", "K-FLOW/go"}})
+		c.RunSkeletons(SkelOpts{Rules: []string{"K-LOCK/access-locked", "K-LOCK/write-exclusive", "K-LOCK/common-lock", "K-LOCK/distinct-locks", "K-LOCK/lock-type", "K-LOCK/receiver", "K-LOCK/unbalanced", "K-RECORD/escape", "K-RECORD/distinct-storage", "K-RECORD/writers", "K-FLOW/go", "K-RESET/frame", "K-FLOW/calls"}})
 	})
 	register("C06", "proof", func(c *Ctx) {
 		skeletonExplain(c, "C06 (no internal lock held while user code runs): a may/must lockset dataflow over go/cfg runs on every function with a mock receiver. Obligations per function: lockset empty at the call through the function field (K-LOCK/held-at-callback), empty at every exit incl. panics (held-at-exit), no acquire while any lock may be held (nested), releases only of held locks (unbalanced), no call other than append/len inside a critical section, no loop inside one, no defer at all, no goroutine/channel operation/function literal.")
